@@ -25,11 +25,13 @@ def run_property(prop: str, tier: str, repo: str, overlay=None, seed: int = 0, k
     lint.no_reflection(ctx)
     from . import symex
     symex.INLINER = symex.Inliner(ctx)
+    symex._CACHE.clear()
     try:
         mod.run(ctx)
     finally:
         ctx.analysed['helper_calls_inlined'] = symex.INLINER.count
         symex.INLINER = None
+        symex._CACHE.clear()
     ctx.apply_known_findings(known_path)
     ctx.analysed.setdefault('modules', len(prog.modules))
     ctx.analysed.setdefault('functions', len(prog.functions))
@@ -67,7 +69,8 @@ def main(argv=None) -> int:
                 print(f'  recorded: {r["at"]} {r["function"]} {r["rule"]} - {r["fact"]}')
         ctx = run_property(prop, tier, args.repo, seed=seed)
         selftest = None
-        if tier == 'thorough' and not args.no_selftest:
+        # the checker's own corpus gates only a CLEAN verdict: on a tree with violations every variant inherits them
+        if tier == 'thorough' and not args.no_selftest and not ctx.violations:
             from . import selftest as st
             selftest = st.run(prop, args.repo, seed)
             if selftest.get('failed'):
